@@ -1058,6 +1058,7 @@ package rib
 //@ unit hasCheckFn
 //@ ensures[found] result0 != nil ==> exists i in 0..len(opts) :: istype(opts[i], *ribHolderCheckFn) && payload(opts[i]) == result0
 //@ ensures[none] (forall i in 0..len(opts) :: !istype(opts[i], *ribHolderCheckFn)) ==> result0 == nil
+//@ ensures[match-returned] (exists i in 0..len(opts) :: istype(opts[i], *ribHolderCheckFn)) ==> (exists i in 0..len(opts) :: istype(opts[i], *ribHolderCheckFn) && payload(opts[i]) == result0)
 //@ loop 1 at "range opts" invariant forall i in 0..loopi :: !istype(opts[i], *ribHolderCheckFn)
 //@ assigns nothing
 //@ props C16 C12:safety
@@ -1083,7 +1084,14 @@ package rib
 //@ inline RIBHolderCheckFn
 //@ inline DisableForwardReferences
 
+// gateInv: the reference check and the forward-reference policy of every instance are those of the RIB
+// (C02: an instance created later, e.g. a VRF, is gated exactly like the default one). Established by New and
+// AddNetworkInstance; no other unit assigns these fields (their frames prove it).
+//@ pred gateInv(r *RIB) = forall k in dom(r.niRIB) :: (r.niRIB[k].checkFn != nil <==> r.ribCheck) && (r.niRIB[k].disableForwardRef <==> r.disableForwardReferences)
 //@ unit NewRIBHolder
+//@ requires[opts-wf] forall i in 0..len(opts) :: istype(opts[i], *ribHolderCheckFn) ==> payload(opts[i]) != 0
+//@ ensures[gate-check] result0.checkFn != nil <==> (exists i in 0..len(opts) :: istype(opts[i], *ribHolderCheckFn))
+//@ ensures[gate-forward-refs] result0.disableForwardRef <==> (exists i in 0..len(opts) :: istype(opts[i], *disableForwardRef))
 //@ ensures[fresh] result0 != nil && fresh(result0) && holderWF(result0) && result0.name == name && result0.postChangeHook == nil
 //@ ensures[empty] emptied(result0.r.Afts) && fresh(result0.r) && fresh(result0.r.Afts) && fresh(result0.refCounts)
 //@   && fresh(result0.refCounts.NextHop) && fresh(result0.refCounts.NextHopGroup)
@@ -1105,14 +1113,17 @@ package rib
 //@ ensures[exists] name in old(dom(r.niRIB)) ==> result0 != nil && dom(r.niRIB) == old(dom(r.niRIB))
 //@ ensures[added] !(name in old(dom(r.niRIB))) ==> result0 == nil && name in dom(r.niRIB) && fresh(r.niRIB[name]) && emptied(r.niRIB[name].r.Afts)
 //@ ensures[hook-inv] hookInv(r)
+//@ ensures[gate-inv] old(gateInv(r)) ==> gateInv(r)
+//@ ensures[gated-like-the-rib] !(name in old(dom(r.niRIB))) ==> (r.niRIB[name].checkFn != nil <==> r.ribCheck) && (r.niRIB[name].disableForwardRef <==> r.disableForwardReferences)
 //@ ensures[wf] holdersWF(r)
 //@ ensures[others] forall k in old(dom(r.niRIB)) :: k in dom(r.niRIB) && r.niRIB[k] == old(r.niRIB[k])
 //@ assigns r.niRIB[name]
-//@ props C16 C12:safety C11:lock
+//@ props C16 C02 C12:safety C11:lock
 
 //@ unit New
 //@ ensures[wf] result0 != nil && fresh(result0) && holdersWF(result0) && pendingWF(result0) && hookInv(result0)
 //@ ensures[default-only] dom(result0.niRIB) == add(emptyset(string), dn) && result0.defaultName == dn && emptied(result0.niRIB[dn].r.Afts)
 //@ ensures[nothing-held] dom(result0.pendingEntries) == emptyset(uint64)
+//@ ensures[gate] gateInv(result0) && (result0.ribCheck <==> !(exists i in 0..len(opt) :: istype(opt[i], *disableCheckFn))) && (result0.disableForwardReferences <==> (exists i in 0..len(opt) :: istype(opt[i], *disableForwardRef)))
 //@ assigns nothing
 //@ props C16 C01 C12:safety
